@@ -2,11 +2,11 @@ package main
 
 import (
 	"fmt"
-	"math/big"
 	"go/ast"
 	"go/constant"
 	"go/token"
 	"go/types"
+	"math/big"
 	"strconv"
 	"strings"
 )
@@ -651,13 +651,7 @@ func (f *fnCtx) call(c *ast.CallExpr, stmt bool) string {
 		// a callback parameter
 		if o, ok := f.localVar(id); ok {
 			if f.g.classify(o.Type()).k == kFunc {
-				var as []string
-				for _, a := range c.Args {
-					as = append(as, f.atom(f.expr(a)))
-				}
-				if len(as) == 0 {
-					as = []string{"()"}
-				}
+				as := f.callbackArgs(c)
 				return "(" + f.nameOf(o) + " " + strings.Join(as, " ") + ")"
 			}
 		}
@@ -705,6 +699,10 @@ func (f *fnCtx) call(c *ast.CallExpr, stmt bool) string {
 				return "((" + r + ".length : Nat) : Int)"
 			case "IsZero", "Empty":
 				return "(" + r + ".all fun c => decide (c.Amount = 0))"
+			case "Equal":
+				if len(c.Args) == 1 {
+					return "(Go.coinsEqual " + r + " " + f.atom(f.expr(c.Args[0])) + ")"
+				}
 			}
 		case kErr:
 			if m == "Error" {
@@ -728,11 +726,17 @@ func (f *fnCtx) call(c *ast.CallExpr, stmt bool) string {
 		}
 		name := strings.Join(p.segs, ".")
 		eff := stmt || effectful[p.segs[len(p.segs)-1]]
+		if sel, ok := c.Fun.(*ast.SelectorExpr); ok && effectful[sel.Sel.Name] {
+			eff = true // (the last segment may carry the names of object arguments)
+		}
 		if eff {
 			var ia []string
 			for _, a := range c.Args {
 				ak := f.g.classifySafe(f.typeOf(a))
 				switch ak.k {
+				case kCoins:
+					// the amounts of a coin list handed to an effect
+					f.effCoins = append(f.effCoins, f.atom(f.expr(a)))
 				case kNat, kInt, kBig, kSdk, kDec:
 					ia = append(ia, f.asInt(a))
 				case kBytes:
@@ -783,14 +787,20 @@ func (f *fnCtx) call(c *ast.CallExpr, stmt bool) string {
 	return ""
 }
 
-var effectful = map[string]bool{"SubGas": true, "AddGas": true, "AddBalance": true, "SubBalance": true, "SetNonce": true, "SetState": true,
+var effectful = map[string]bool{"SendCoinsFromAccountToModule": true, "SendCoinsFromModuleToModule": true, "SendCoinsFromModuleToAccount": true,
+	"BurnCoins": true, "MintCoins": true, "SendCoins": true, "SaveProofExternalOwnedAccount": true, "SubGas": true, "AddGas": true, "AddBalance": true, "SubBalance": true, "SetNonce": true, "SetState": true,
 	"SetCode": true, "AddLog": true, "Suicide": true, "ConsumeGas": true, "RefundGas": true, "SetParams": true, "SetBaseFee": true}
 
 func (f *fnCtx) nameOfRootGo(o types.Object) string { return o.Name() }
 
 func (f *fnCtx) effect(name string, intArgs []string) {
 	f.hasEff = true
-	f.emit(fmt.Sprintf("let eff := eff ++ [Go.Effect.mk %s [%s]]", strconv.Quote(name), strings.Join(intArgs, ", ")))
+	args := "[" + strings.Join(intArgs, ", ") + "]"
+	for _, c := range f.effCoins {
+		args = "(" + args + " ++ " + c + ".map (fun c => c.Amount))"
+	}
+	f.effCoins = nil
+	f.emit(fmt.Sprintf("let eff := eff ++ [Go.Effect.mk %s %s]", strconv.Quote(name), args))
 }
 
 func (f *fnCtx) errorCall(c *ast.CallExpr) string {
@@ -850,10 +860,15 @@ func (f *fnCtx) pkgCall(path, name string, c *ast.CallExpr) string {
 		return "(Go.u64ToBe " + arg(0) + ")"
 	case "github.com/cosmos/cosmos-sdk/types.NewCoin":
 		return f.partial("Go.newCoin " + arg(0) + " " + arg(1))
+	case "github.com/cosmos/cosmos-sdk/types.NewInt64Coin":
+		return f.partial("Go.newCoin " + arg(0) + " " + arg(1))
 	case "github.com/cosmos/cosmos-sdk/types.NewCoins":
 		if len(c.Args) == 1 {
 			return "(Go.newCoins1 " + arg(0) + ")"
 		}
+	case "errors.Is":
+		// errors are their class (the sentinel's name; wrapping keeps the class)
+		return "(decide (" + arg(0) + " = " + arg(1) + "))"
 	case "github.com/ethereum/go-ethereum/common/math.BigMax":
 		return "(max " + arg(0) + " " + arg(1) + ")"
 	case "github.com/ethereum/go-ethereum/common/math.BigMin":
